@@ -31,6 +31,10 @@ void pbt_run(const Case& cs, Ctx& ctx) {
   void* h[NH]; std::string m[NH]; int pay[NH];  // pay: model-side payload identity (for labels and the Ptr object count)
   for (int i = 0; i < NH; ++i) { h[i] = nullptr; pay[i] = -1; }
   int nextPay = 100; int recentMix = -1;
+  h[0] = k->make(0); m[0] = k->initial(0); pay[0] = nextPay++;
+  h[1] = k->make(1); m[1] = k->initial(1); pay[1] = nextPay++;
+  h[2] = k->copy(h[0]); m[2] = m[0]; pay[2] = pay[0];
+  h[3] = k->copy(h[1]); m[3] = m[1]; pay[3] = pay[1];
   auto objCountCheck = [&](const char* opname) {
     if (kind != 3) return;
     // an object is destroyed exactly when no handle refers to it any more
